@@ -125,6 +125,15 @@ def run(ctx):
         else:
             r1.check(p in declared, f"name {n}", f"prefix {p!r} is declared in the folded NSMAP", where[0],
                      why_fail=f"declared prefixes: {sorted(declared)}")
+    # every prefix the author declares in the `namespaces` setting is bound on the root (it is what the author's
+    # `bind::p:x` / `instance::p:x` / `body::p:x` columns use), whatever its URI is
+    from .c19 import _NS_CASES, nsmap_table
+    for desc, feats, ns, res in nsmap_table(ctx, "C01.R1"):
+        if not ns:
+            continue
+        missing = [p_ for p_, u_ in _NS_CASES[ns] if not (isinstance(res, dict) and res.get(f"xmlns:{p_}") == u_)]
+        r1.check(not missing, f"get_nsmap[{desc}]", "each prefix of the namespaces setting is declared with its URI", "pyxform/survey.py",
+                 why_fail=f"prefix(es) {missing} are not bound: an attribute column using them yields an unbound prefix")
     r1.check("xmlns" in nsmap and nsmap.get("xmlns") == "http://www.w3.org/2002/xforms", "NSMAP[xmlns]", "default namespace is XForms", "pyxform/constants.py")
     r1.check(nsmap.get("xmlns:h") == "http://www.w3.org/1999/xhtml", "NSMAP[xmlns:h]", "h: is XHTML", "pyxform/constants.py")
     rules.append(r1)
@@ -155,6 +164,35 @@ def run(ctx):
                 continue
             r2.check(not bad, f"{s.fi.fq}:setAttribute:{norm(c.args[0])[:40]}", "attribute name is a literal / table key", s.loc,
                      why_fail=f"provenance {bad}")
+    # the element factory itself: node() is the trusted summary of every site above, so inside it (and anywhere else on
+    # the conversion path) an element may only be constructed from the factory's own tag argument
+    nf = ctx.func("pyxform.utils:node", "C01.R2")
+    tag_names = set()
+    for x in walk_own(nf.node):
+        if isinstance(x, ast.Assign) and len(x.targets) == 1 and isinstance(x.targets[0], ast.Name):
+            srcs = {norm(n) for n in ast.walk(x.value) if isinstance(n, ast.Subscript)}
+            if srcs and srcs <= {"args[0]", "kwargs['tag']"} and not any(isinstance(n, ast.Call) and call_name(n) != "len" for n in ast.walk(x.value)):
+                tag_names.add(x.targets[0].id)
+    ELEMENT_CTORS = {"DetachableElement", "Element", "createElement", "createElementNS", "createAttribute", "createAttributeNS", "setAttributeNS", "setAttributeNode"}
+    n_ctor = 0
+    for fi in repo.all_functions():
+        if fi.fq not in reach and fi.fq != nf.fq:
+            continue
+        for c in walk_own(fi.node):
+            if not isinstance(c, ast.Call):
+                continue
+            cn = call_name(c)
+            if cn in ELEMENT_CTORS:
+                n_ctor += 1
+                a0 = c.args[0] if c.args else None
+                ok_ = fi.fq == nf.fq and isinstance(a0, ast.Name) and a0.id in tag_names
+                r2.check(ok_, f"{fi.fq}:{cn}({norm(a0)[:30] if a0 is not None else ''})", "elements are constructed only by the factory, from its tag argument", fi.loc(c),
+                         why_fail="an element constructed outside node(), or from something other than node()'s tag argument, is a name position the rules above do not see")
+            elif fi.fq == nf.fq and cn == "node":
+                ok_, v_ = const_str(ctx, fi.module, c.args[0]) if c.args else (False, None)
+                r2.check(ok_ and isinstance(v_, str), f"{fi.fq}:node({norm(c.args[0])[:30] if c.args else ''})", "the factory creates further elements only with literal names", fi.loc(c),
+                         why_fail="the factory names an element after a value found in its arguments (dict key, attribute value, child text)")
+    r2.check(n_ctor >= 1 and bool(tag_names), "element constructors census", f"{n_ctor} element constructor call(s) on the conversion path; factory tag variable(s) {sorted(tag_names)}", nf.loc())
     rules.append(r2)
 
     # ------------------------------------------------------------------ R3
@@ -314,6 +352,15 @@ def run(ctx):
     esc_fn, samples, bad = escaper_failures(ctx, "C01.R7")
     r7.check(not bad, "text escaper[adversarial alphabet]", f"{len(samples)} strings over {{& < > ; # a}} and entity / CDATA-end / comment-like sequences: the text written is well-formed character data "
              "(every & < > escaped, so `]]>` and entity-like input cannot break the document)", esc_fn.loc(), why_fail="; ".join(f"{a!r} -> {b!r}" for a, b, c in bad[:3]))
+    # ... and the text writer writes exactly the escaper's result (nothing is rewritten after escaping)
+    from ..writer_model import eval_text_writer
+    _ecls, tcls = find_writer_classes(ctx, "C01.R7")
+    for events, _esc, assumed, _o in eval_text_writer(ctx, "C01.R7", tcls, ["", "", ""]):
+        nonempty = any(k[0] == "truth" and v for k, v in assumed.items())
+        for w_ in [e[1] for e in events if e[0] == "write"]:
+            pristine = isinstance(w_, Sym) and "ESC" in w_.tags and "derived" not in w_.tags and "derived_from" not in w_.attrs
+            r7.check(pristine or not nonempty, f"{tcls.name}.writexml[{'data' if nonempty else 'empty'}]", "character data is written as the escaper returned it",
+                     tcls.methods["writexml"].loc(), why_fail=f"written value {w_!r} is computed from the escaped text (an un-escaping rewrite can produce ill-formed references)")
     subs = ctx.consts.try_get("pyxform.utils", "XML_TEXT_SUBS") or {}
     if not isinstance(subs, dict):
         subs = {}
